@@ -1,0 +1,66 @@
+//! Verification seam (cargo feature `verif`): an emulated CAN bus made of Unix datagram sockets.
+//!
+//! Active only when the environment variable `GLONAX_VERIF_BUS=<dir>` is set. Every socket bound
+//! to interface `<iface>` lives at `<dir>/<iface>/<pid>-<n>.sock`; a transmitted `can_frame` (the
+//! very 16-byte buffer built by `CANSocket::send`) is delivered to every *other* socket of that
+//! directory, like raw CAN loopback to the other sockets of the host. Per-peer delivery errors
+//! (full queue, stale socket file) drop the frame for that peer only.
+use std::collections::HashMap;
+use std::os::unix::prelude::*;
+use std::path::PathBuf;
+use std::sync::atomic::{AtomicU64, Ordering};
+use std::sync::{Mutex, OnceLock};
+
+static COUNTER: AtomicU64 = AtomicU64::new(0);
+
+fn registry() -> &'static Mutex<HashMap<RawFd, PathBuf>> {
+    static REG: OnceLock<Mutex<HashMap<RawFd, PathBuf>>> = OnceLock::new();
+    REG.get_or_init(|| Mutex::new(HashMap::new()))
+}
+
+/// Directory of the emulated bus for `interface`, if the seam is switched on.
+pub(crate) fn bus_dir(interface: &str) -> Option<PathBuf> {
+    std::env::var_os("GLONAX_VERIF_BUS").map(|d| PathBuf::from(d).join(interface))
+}
+
+/// Create and register a datagram socket on the emulated bus.
+pub(crate) fn bind(interface: &str) -> Option<std::io::Result<socket2::Socket>> {
+    let dir = bus_dir(interface)?;
+    Some((|| {
+        std::fs::create_dir_all(&dir)?;
+        let n = COUNTER.fetch_add(1, Ordering::SeqCst);
+        let path = dir.join(format!("{}-{}.sock", std::process::id(), n));
+        let _ = std::fs::remove_file(&path);
+        let socket = socket2::Socket::new(socket2::Domain::UNIX, socket2::Type::DGRAM, None)?;
+        socket.bind(&socket2::SockAddr::unix(&path)?)?;
+        socket.set_nonblocking(true)?;
+        registry().lock().unwrap().insert(socket.as_raw_fd(), path);
+        Ok(socket)
+    })())
+}
+
+/// Deliver `buf` to every other socket on the same emulated bus. `None` if `fd` is not on one.
+pub(crate) fn send(fd: RawFd, socket: &socket2::Socket, buf: &[u8]) -> Option<std::io::Result<usize>> {
+    let own = registry().lock().unwrap().get(&fd).cloned()?;
+    let dir = own.parent()?.to_path_buf();
+    if let Ok(entries) = std::fs::read_dir(&dir) {
+        let mut peers: Vec<PathBuf> = entries.filter_map(|e| e.ok()).map(|e| e.path()).collect();
+        peers.sort();
+        for peer in peers {
+            if peer == own || peer.extension().map(|e| e != "sock").unwrap_or(true) {
+                continue;
+            }
+            if let Ok(addr) = socket2::SockAddr::unix(&peer) {
+                let _ = socket.send_to(buf, &addr);
+            }
+        }
+    }
+    Some(Ok(buf.len()))
+}
+
+/// Forget a socket and remove its file.
+pub(crate) fn unbind(fd: RawFd) {
+    if let Some(path) = registry().lock().unwrap().remove(&fd) {
+        let _ = std::fs::remove_file(path);
+    }
+}
